@@ -25,10 +25,49 @@ fn strip_root(root: &std::path::Path, v: &Value) -> Value {
     json!(v.as_array().unwrap().iter().map(|kv| json!([kv[0].clone(), json_bytes(&strip(bytes_of(&kv[1])))])).collect::<Vec<_>>())
 }
 
+/// `dot_dir` runs: "/a/b" (canonical spelling of the layer directory) -> "/CANONICALISED/b"; then "/a/./b" -> "/a/b"
+fn respell(v: &Value, dir: &Value) -> Value {
+    let comps: Vec<Vec<u8>> = dir.as_array().unwrap().iter().map(bytes_of).collect();
+    let join = |cs: &[Vec<u8>]| -> Vec<u8> { cs.iter().flat_map(|c| std::iter::once(b'/').chain(c.iter().copied())).collect() };
+    let canon = join(&comps);
+    let mut given_c = comps.clone();
+    given_c.insert(comps.len() - 1, b".".to_vec());
+    let given = join(&given_c);
+    let mut marked = b"/CANONICALISED/".to_vec();
+    marked.extend_from_slice(comps.last().unwrap());
+    let replace = |b: &[u8], from: &[u8], to: &[u8]| -> Vec<u8> {
+        let mut out = vec![];
+        let mut i = 0;
+        while i < b.len() {
+            if b[i..].starts_with(from) {
+                out.extend_from_slice(to);
+                i += from.len();
+            } else {
+                out.push(b[i]);
+                i += 1;
+            }
+        }
+        out
+    };
+    json!(v.as_array().unwrap().iter().map(|kv| {
+        let val = bytes_of(&kv[1]);
+        let step1 = replace(&val, &canon, &marked);
+        json!([kv[0].clone(), json_bytes(&replace(&step1, &given, &canon))])
+    }).collect::<Vec<_>>())
+}
+
 pub fn run(case: &Value) -> Value {
     let root = sandbox(&case["id"]);
     build_tree(&root, &case["init"]);
-    let dir = path_of(&root, &case["dir"]);
+    let mut dir = path_of(&root, &case["dir"]);
+    let dot_dir = case["dot_dir"] == true;
+    if dot_dir {
+        // same directory, spelled with a `.` component before the last one
+        let last = dir.file_name().unwrap().to_os_string();
+        dir.pop();
+        dir.push(".");
+        dir.push(last);
+    }
     let mut steps = vec![];
     let pre = snapshot(&root);
     for st in case["steps"].as_array().unwrap() {
@@ -46,7 +85,12 @@ pub fn run(case: &Value) -> Value {
                     for p in st["probes"].as_array().unwrap() {
                         let env0 = env_of(&p["env0"]);
                         let out = le.apply(scope_of(&p["scope"]), &env0);
-                        probes.push(strip_root(&root, &dump_env(&out)));
+                        let mut pv = strip_root(&root, &dump_env(&out));
+                        if dot_dir {
+                            // values built from the canonical spelling are marked, then the given spelling is normalised
+                            pv = respell(&pv, &case["dir"]);
+                        }
+                        probes.push(pv);
                     }
                     json!({"ok": true, "probes": probes})
                 }
